@@ -280,7 +280,7 @@ class History:
             a = [start, 10000, r.choice([0, 3]), 0, r.choice([0, 5])]
         elif ch == 1:
             times = r.choice([1, 2, 3, 4, 7])
-            per = r.choice([1000, 1500, 2500, 1])
+            per = r.choice([1000, 1400, 2500, 1])
             a = [start, 10000 - times * per, times, per, r.choice([1, 5, 30])]
         elif ch == 2:
             a = [start, r.choice([0, 2000]), 3, 3333, 10]
@@ -378,8 +378,12 @@ class History:
         rem = self.alloc(u) - self.confirmed(u)
         tok, pr = self.cur_price()
         if mode == 'ok':
+            tgt = self.target(u)
+            togo = tgt - self.confirmed(u)
             if rem <= 0:
                 n = r.choice([0, 1])
+            elif togo > 0 and r.random() < 0.8:
+                n = min(rem, togo if r.random() < 0.7 else r.randint(1, togo))
             else:
                 n = r.choice([rem, rem, r.randint(1, rem), 1])
             return self.call(u, ['confirm', n], pay=self.payment(n) if n > 0 else [], kind='confirm')
@@ -404,6 +408,30 @@ class History:
         else:
             pay = []
         return self.call(u, ['confirm', n], pay=pay, kind='confirm_bad')
+
+    def target(self, u):
+        """an interesting total number of confirmations for user u (thresholds of its guarantees)"""
+        if not hasattr(self, 'targets'):
+            self.targets = {}
+        if u in self.targets:
+            return self.targets[u]
+        r = self.rng
+        al = self.alloc(u)
+        cands = [al, al, max(0, al - 1), 1]
+        ut = self.view('utStatus', u)
+        if self.v in V1:
+            mc = self.minconf
+            cands += [mc, max(0, mc - 1), mc + 1]
+            if ut:
+                st, en = ut[0], ut[1]
+                cands += [en, max(0, en - 1), st + en, max(0, st + en - 1), max(mc, en - 1), max(mc, en - 1)]
+        elif self.v == 'gt2' and ut:
+            for k in range(ut[1]):
+                g, m = ut[2 + 2 * k], ut[3 + 2 * k]
+                cands += [m, max(0, m - 1), g, sum(ut[2 + 2 * j] for j in range(ut[1]))]
+        t = min(al, r.choice(cands))
+        self.targets[u] = t
+        return t
 
     def blacklist_ops(self):
         r = self.rng
@@ -539,6 +567,8 @@ class History:
                     return True
                 if r.random() < 0.1 and not self.twin:
                     self.probe()
+                if r.random() < 0.15:
+                    self.timeline_probe()
             else:
                 stuck += 1
                 if stuck > 3:
@@ -554,6 +584,8 @@ class History:
             # out-of-order attempts
             self.call(self.some_caller(0.5), r.choice(['select', 'extra', 'claim', 'claimPayment']), budget=self.budget())
         for ep in order:
+            if r.random() < 0.5:
+                self.timeline_probe()
             if r.random() < 0.15 and not self.twin:
                 nxt = [x for x in order if x != ep]
                 self.call(self.some_caller(0.5), r.choice(nxt + ['claim']), budget=self.budget())
@@ -564,6 +596,15 @@ class History:
                 self.call(self.some_caller(0.5), ep, budget=self.budget())  # repeat of a completed step must fail
         if v not in HAS_EXTRA and r.random() < 0.2:
             self.call(OWNER, 'extra')
+
+    def timeline_probe(self):
+        """owner tries to move a start round (future values) - legal only for rounds not yet reached"""
+        r = self.rng
+        cfg = self.view('config') or [self.conf, self.ws, self.claim]
+        k = r.choice([0, 1, 2, 2])
+        name = ['setConfStart', 'setWsStart', 'setClaimStart'][k]
+        val = r.choice([self.round + 1, self.round + r.randint(2, 50), max(cfg[k], self.round) + 10, cfg[2] + 1])
+        return self.call(OWNER if r.random() < 0.9 else self.non_owner(), [name, val])
 
     # ---------------------------------------------------------------- phase Claim
     def phase_claim(self):
@@ -576,6 +617,8 @@ class History:
         self.round = max(self.round, self.claim) + r.choice([0, 0, 1, 10])
         if v in LOCKV:
             self.epoch = r.choice([self.epoch, self.lock[1] - 1, self.lock[1], self.lock[1] + 3])
+        if r.random() < 0.3:
+            self.timeline_probe()
         actors = list(self.users) + [OWNER] + [STRANGERS[0]]
         r.shuffle(actors)
         if r.random() < 0.2:
